@@ -386,6 +386,41 @@ func jsonScalar(v val.Value) interface{} {
 	return v.Value()
 }
 
+// Lex is the harness' own lexical form of a scalar value (what stands in a path key, an XML element
+// or an expression), computed from the value's Go content - never through the library's String().
+func Lex(v val.Value) string {
+	switch x := v.(type) {
+	case val.String:
+		return string(x)
+	case val.Bool:
+		return strconv.FormatBool(bool(x))
+	case val.Enum:
+		return x.Label
+	case val.IdentRef:
+		return x.Label
+	case val.Bits:
+		return strings.Join(x.Labels, " ")
+	case val.Decimal64:
+		return fmtFloat(float64(x))
+	case val.Binary:
+		return string(x)
+	case val.NotEmptyType:
+		return ""
+	}
+	rv := reflect.ValueOf(v.Value())
+	switch {
+	case rv.CanInt():
+		return strconv.FormatInt(rv.Int(), 10)
+	case rv.CanUint():
+		return strconv.FormatUint(rv.Uint(), 10)
+	case rv.CanFloat():
+		return fmtFloat(rv.Float())
+	case rv.Kind() == reflect.String:
+		return rv.String()
+	}
+	panic(fmt.Sprintf("harness: no lexical form for %T", v))
+}
+
 func jsonValue(v val.Value) interface{} {
 	if l, ok := v.(val.Listable); ok && v.Format().IsList() {
 		out := []interface{}{}
